@@ -19,6 +19,10 @@ func (g *rangeGen) generate() {
 
 	g.genComment()
 	g.P("func (x *", g.typeName, ") Range(f func(", protoreflectPkg.Ident("FieldDescriptor"), ", ", protoreflectPkg.Ident("Value"), ") bool) {")
+	// a nil message has no populated fields
+	g.P("if x == nil {")
+	g.P("return")
+	g.P("}")
 	for _, field := range g.message.Fields {
 		g.genField(field)
 	}
